@@ -61,6 +61,8 @@ def cases(draw, tier):
     # use and rebuilt it (callers own what generate_* returns)
     prelude = draw(st.sampled_from([None, None, None, 'own_pairwise_xor']))
     return {'left': left, 'right': right, 'mode': mode, 'names': names, 'prelude': prelude,
+            # a circuit compared with itself: one and the same object on both sides
+            'same_object': mode == 'same' and draw(st.booleans()),
             'lroute': draw(gen.routes(left)), 'rroute': draw(gen.routes(right))}
 
 
@@ -71,6 +73,8 @@ def check_miter(case):
 
     L, R = case['left'], case['right']
     cl, cr = build.build(L, case['lroute']), build.build(R, case['rroute'])
+    if case.get('same_object') and L == R:
+        cr = cl
     sl, sr = wellformed.snapshot(cl), wellformed.snapshot(cr)
     kw = {}
     if case['names']:
@@ -122,6 +126,8 @@ def check_miter(case):
     cls = {'mode:' + case['mode'], f'm={min(m, 3)}{"+" if m > 3 else ""}'}
     if case.get('prelude'):
         cls.add('prelude:' + case['prelude'])
+    if cr is cl:
+        cls.add('same_object_twice')
     if set(g[0] for g in L['gates']) & set(g[0] for g in R['gates']):
         cls.add('shared_labels')
     typl = {g[0]: g[1] for g in L['gates']}
